@@ -155,6 +155,7 @@ func safeExec(e Engine, plan any, c *Ctx) (v *Violation) {
 		}
 	}()
 	clockInit(hash64(planJSON(plan)), c)
+	bgInit(hash64(planJSON(plan)), c)
 	return e.Exec(plan, c)
 }
 
@@ -181,7 +182,11 @@ func execFresh(e Engine, plan any, env []string) execResult {
 	self, _ := os.Executable()
 	out, err := withProcEnv(exec.Command(self, "exec", e.ID(), tmp.Name()), env).Output()
 	if err != nil {
-		fatal2("exec of plan in a fresh process failed: %v\n%s", err, out)
+		se := ""
+		if ee, ok := err.(*exec.ExitError); ok {
+			se = string(ee.Stderr)
+		}
+		fatal2("exec of plan in a fresh process failed: %v\n%s\n%s", err, out, se)
 	}
 	var r execResult
 	if err := json.Unmarshal(out, &r); err != nil {
